@@ -87,6 +87,10 @@ void vsim_probe_set(vsim_probe_cb cb, void *arg);
 void vsim_sign_corrupt(int node, int count);
 uint64_t vsim_sign_corrupted(void);
 
+/* byzantine peer (guarded hook in /repo): while `node` is current, skip the next `count` handshake messages of type `hs_type` (254 = CCS) */
+void vsim_hs_skip(int node, int hs_type, int count);
+uint64_t vsim_hs_skipped(void);
+
 uint64_t vsim_fnv(const void *p, size_t n);
 
 #ifdef __cplusplus
